@@ -29,7 +29,10 @@ REGISTRY = dict(
           "op^dagger = c*op. PARTIAL: 'converged => |result-exp(A)v| <= 10*tol*|v|' (Expokit error estimate) is stated "
           "as a Prop, NOT proved; it is validated against scipy.linalg.expm on the three operator classes of the "
           "property (threshold 10*tol*|v| + 1e-9*max(1,|exp A|)*|v|). Breakdown exactness (residual exactly 0 => result "
-          "= exp(op)v) is stated, not proved."),
+          "= exp(op)v) is stated, not proved. FINDING D20-C07 (open, class krylov-early-accept-avnorm): the unchanged code "
+          "violates the accuracy clause inside the quantifier when the start vector is nearly an eigenvector of the "
+          "dominant part (err2 uses |op v_j| instead of Expokit's |op v_{j+1}|): kernel-checked exact model run "
+          "(early_accept_witness) + replay on the real code against scipy on every run."),
     note=("Trusted: Lean kernel + propext/Classical.choice/Quot.sound; Mathlib; hand-written Model.Krylov tied to the "
           "code by the tape-driven and dense correspondence of each run; torch.linalg.matrix_exp, Tensor.norm, "
           "tensordot and binary64 rounding are outside the theorems; the accuracy clause rests on differential "
@@ -87,7 +90,7 @@ def gen_case(rng, tier, small=False):
     """One operator of the three classes of the property + start vector + configuration."""
     g = np.random.default_rng(rng.getrandbits(48))
     cls = rng.choice(["herm", "herm", "nonherm", "lindblad"])
-    big = (tier == "thorough") or rng.random() < 0.08
+    big = rng.random() < (0.3 if tier == "thorough" else 0.08)
     nmax = 9 if small else (256 if big else 48)
     if cls == "lindblad":
         d = rng.randint(1, max(1, int(math.isqrt(nmax))))
@@ -136,6 +139,53 @@ def gen_case(rng, tier, small=False):
         if sub in ("gue", "chain", "lindblad") and n > 2:
             md = rng.randint(1, n - 1)      # dense stream: stay short of the invariant subspace (noise-level n2)
     return dict(cls=cls, sub=sub, n=n, a=a, v=v, shape=shape, herm=herm, tol=tol, norm_tol=tol, md=md)
+
+
+def gen_weak_case(rng):
+    """Start vector = eigenvector of the dominant (diagonal) part, weak coupling: |A v_0| << |A v_1|
+    (an atom in |g> under weak drive and large detuning). In class (-i*dt*H, H Hermitian)."""
+    g = np.random.default_rng(rng.getrandbits(48))
+    n = rng.randint(2, 24)
+    d = np.diag(g.normal(size=n) * 10 ** rng.uniform(0, 1.5)).astype(complex)
+    k = rng.randrange(n)
+    if rng.random() < 0.5:
+        d[k, k] = 0.0
+    m = g.normal(size=(n, n)) + 1j * g.normal(size=(n, n))
+    h = d + 10 ** rng.uniform(-4, -1.5) * (m + m.conj().T) / 2
+    a = -1j * 10 ** rng.uniform(-3.5, -1.5) * h
+    v = np.zeros(n, dtype=complex)
+    v[k] = 1.0
+    tol = 10 ** rng.uniform(-12, -7)
+    return dict(cls="herm", sub="weakstart", n=n, a=a, v=v, shape=(n,), herm=rng.random() < 0.7, tol=tol, norm_tol=tol,
+                md=rng.choice([20, 50, 100]))
+
+
+KNOWN_CLASS = "krylov-early-accept-avnorm"
+
+
+def witness_case():
+    """D20-C07 (found by the C01 check): 1 atom in |g>, Omega=0.02, delta=-30 rad/us, dt=1 ns, tol=1e-10."""
+    h = np.array([[0, 0.01], [0.01, 30.0]], dtype=complex)
+    return dict(cls="herm", sub="witness-1atom", n=2, a=-1j * 0.001 * h, v=np.array([1, 0], dtype=complex), shape=(2,),
+                herm=True, tol=1e-10, norm_tol=1e-10, md=100)
+
+
+def classify(case, r, its):
+    """A converged-but-inaccurate run is the known finding iff the error estimate of the accepting
+    iteration j, recomputed with Expokit's avnorm |op(v_{j+1})| in place of the code's |op(v_j)|,
+    would NOT have accepted. |op(v_{j+1})| is read off a second real run that is forbidden to accept."""
+    if r is None or not r.converged or r.happy_breakdown:
+        return None
+    j = r.iteration_count - 1
+    c2 = dict(case, tol=-1.0, md=j + 2)
+    kind2, r2, rec2 = run_impl(c2)
+    pe = parse_events(rec2.events) if kind2 == "ok" else None
+    if pe is None or len(pe[1]) < j + 2:
+        return None
+    n_next = pe[1][j + 1]["n"]
+    col = its[j]["mexp"][1][:, 0]
+    e1, e2 = abs(col[j + 1]), abs(col[j + 2] * n_next)
+    return KNOWN_CLASS if not err_of(e1, e2) < case["tol"] else None
 
 
 def gen_corr_case(rng, tier, small=False):
@@ -362,9 +412,9 @@ def check(rep: Report, tier: str, seed: int) -> None:
     lean_thread.start()
     rng = seeded(seed * 7919 + 7)
     torch.manual_seed(seed)
-    n_or = 200 if tier == "quick" else 6000
-    n_co = 120 if tier == "quick" else 4000
-    n_dense = 50 if tier == "quick" else 1500
+    n_or = 200 if tier == "quick" else 1800
+    n_co = 120 if tier == "quick" else 1000
+    n_dense = 50 if tier == "quick" else 500
     lines, metas = [], []
     worst = 0.0
 
@@ -379,14 +429,16 @@ def check(rep: Report, tier: str, seed: int) -> None:
         if msg is None and case.get("in_class", True):
             msg = oracle_public(case, r)
         worst = max(worst, case.get("_err_over_thr", 0.0))
-        if msg:
-            rep.fail(msg, _ser(case), klass=None)
         pe = parse_events(rec.events) if kind == "ok" else ((rec.events[0][1], []) if rec.events else None)
         if kind == "ok" and pe is None:
             rep.broke("correspondence: the real run's kernel-call schedule is not (norm, [op, norm, dots, norm, matrix_exp]*): "
                       + json.dumps([e[0] for e in rec.events][:40]))
             return
         n0, its = pe
+        if msg:
+            klass = classify(case, r, its) if "10*tol" in msg else None
+            rep.fail(msg, _ser(case), klass=klass)
+            rep.hist("oracle_failures", klass or "unclassified")
         for t in its:   # contract of the matrix_exp oracle
             arg, out = t["mexp"]
             ref = scipy.linalg.expm(arg)
@@ -407,8 +459,11 @@ def check(rep: Report, tier: str, seed: int) -> None:
                                    l2([[cx(z) for z in t["mexp"][1][:, 0]] for t in its])]))
             metas.append(("dense", case, kind, r, rec, its))
 
+    add(witness_case())
     for i in range(n_or):
         add(gen_case(rng, tier))
+    for i in range(25 if tier == "quick" else 400):
+        add(gen_weak_case(rng))
     for i in range(n_co):
         c = gen_corr_case(rng, tier)
         c["in_class"] = c["md"] > 0 and c["norm_tol"] == c["tol"] and 1e-12 <= c["tol"] <= 1e-4 and \
@@ -421,7 +476,10 @@ def check(rep: Report, tier: str, seed: int) -> None:
         add(c, dense=True)
     rep.extra["worst_error_over_threshold"] = round(worst, 6)
 
+    import time as _t
+    rep.extra["t_python_side_s"] = round(_t.time() - rep.t0, 1)
     lean_thread.finish()
+    rep.extra["t_lean_stage_done_s"] = round(_t.time() - rep.t0, 1)
     try:
         replies = Driver().batch(lines)
     except LeanError as e:
